@@ -18,7 +18,9 @@ RULE = ("kernel-shaped inputs drawn from the theorem's domain and printed by the
         "plain 0644 file, a searchable 0755 directory incl. '/' and a trailing-slash directory, dangling, relative -- each really put on "
         "disk, isabs/isfile/access(X_OK) answered separately by the file system); (comm, argv) pairs "
         "around the 15-byte boundary (ASCII, multi-byte, truncated inside a character); zombies (every pool name cut at 15 and 14 bytes: name(), cmdline(), exe(), cwd()); processes being torn down (stat absent "
-        "with or without the directory, probe refused); histories (cmdline(), the caller edits the returned list in place, cmdline(), name(), "
+        "with or without the directory, probe refused); name() histories on one object (the process_iter() instance in 40 %: name()/repr()/as_dict()/process_iter(['name']) calls while "
+        "comm stays and the command line is rewritten to another basename with the same 15-byte prefix, overwritten by a title, emptied, or the "
+        "process turns zombie; 4 names x 6 changes x 4 first calls enumerated in both tiers); histories (cmdline(), the caller edits the returned list in place, cmdline(), name(), "
         "exe() again, inside and outside oneshot()); arbitrary bytes as the cmdline file against the documented rule and arbitrary environment blocks against "
         "the total specification; code-point lists for the encoder; a malformed stream (raw cmdline/environ "
         "bytes, ENOENT/ESRCH/EACCES on files and links, vanished /proc entries, zombies) compared with the model only; raw byte "
@@ -37,7 +39,7 @@ ASSUMPTIONS = ["CPython semantics of str.split/find/endswith/startswith, text-mo
                "parsing of the stat record (comm between the parentheses, state letter) is C06's subject; here comm and the zombie flag are inputs"]
 EXHAUSTIVE = {
     "quick": "all 156 argv of <=3 args over {'', 'a', ' ', 'a b', 'a '}; all 117 titles of <=3 words over {'', 'a', 'b'} x {none, space, NUL}; "
-             "exe() fallback: 15 (cmdline()[0], kind on disk) pairs x {ENOENT, ESRCH, EACCES}; all 781 cmdline files of <=4 bytes over "
+             "exe() fallback: 15 (cmdline()[0], kind on disk) pairs x {ENOENT, ESRCH, EACCES}; all 156 cmdline files of <=3 bytes over "
              "{NUL, ' ', 'a', CR, LF} against the documented rule",
     "thorough": "all 156 argv of <=3 args over {'', 'a', ' ', 'a b', 'a '}; all 117 titles of <=3 words over {'', 'a', 'b'} x {none, space, NUL}; "
                 "all 3906 cmdline files of <=5 bytes over {NUL, ' ', 'a', CR, LF} against the documented rule; exe() fallback: 15 (cmdline()[0], kind on disk) pairs x "
@@ -278,7 +280,7 @@ UDEC_ALPHA = [0x41, 0x7f, 0x80, 0xbf, 0xc0, 0xc1, 0xc2, 0xc3, 0xa9, 0xdf, 0xe0, 
 
 
 def gen_cases(rng, tier):
-    n = {"quick": 150, "thorough": 3000, "search": 400}[tier]
+    n = {"quick": 120, "thorough": 3000, "search": 400}[tier]
     cases = []
     if tier != "search":
         ex = [b"", b"a", b" ", b"a b", b"a "]
@@ -291,9 +293,9 @@ def gen_cases(rng, tier):
                 for t in ("none", "space", "nul"):
                     cases.append({"kind": "cmd", "cls": "exh-title-" + t, "cmd": {"form": "title", "parts": [h(p) for p in combo], "term": t},
                                   "zombie": False})
-    # every cmdline file of <= 4 (quick) / <= 5 (thorough) bytes over {NUL, ' ', 'a', CR, LF}: model, rule (C12_cmdline_total), code
+    # every cmdline file of <= 3 (quick) / <= 5 (thorough) bytes over {NUL, ' ', 'a', CR, LF}: model, rule (C12_cmdline_total), code
     if tier != "search":
-        for k in range(6 if tier == "thorough" else 5):
+        for k in range(6 if tier == "thorough" else 4):
             for combo in itertools.product([0, 32, 97, 13, 10], repeat=k):
                 cases.append({"kind": "cmdbytes", "cls": "exh-cmdbytes" if combo else "trivial", "data": h(bytes(combo)), "zombie": False})
     for _ in range(n):
@@ -367,6 +369,47 @@ def gen_cases(rng, tier):
     for _ in range(n // 2):
         cases.append({"kind": "zombie", "cls": "zombie-rand", "comm": h(bytes(rng.choice(UDEC_ALPHA[:-2] + [0x29, 0x28, 0x20]) for _ in range(rng.choice([15, 15, 14, 1])))),
                       "esrch": rng.random() < 0.5})
+    # name() histories on one object: the kernel name stays, the command line changes between the calls
+    def _nstate(comm, cmd=None, zombie=False):
+        return {"comm": h(comm), "cmd": cmd or {"form": "argv", "parts": [], "term": "nul"}, "zombie": zombie}
+
+    def _nhist(nm, kinds, ops, via_iter):
+        comm = nm[:15]
+        pre = rng.choice([b"/usr/bin/", b"", b"./", b"/opt/x y/"])
+        states = []
+        for kd in kinds:
+            if kd == "ext":        # argv[0] extends the truncated name
+                st = _nstate(comm, {"form": "argv", "parts": [h(pre + nm), h(b"-x")], "term": "nul"})
+            elif kd == "ext2":     # argv[0] rewritten to another basename with the same 15-byte prefix
+                st = _nstate(comm, {"form": "argv", "parts": [h(pre + comm + b"-other"), h(b"-y")], "term": "nul"})
+            elif kd == "title":    # title overwritten: argv[0] no longer starts with comm
+                st = _nstate(comm, {"form": "title", "parts": [h(b"title:"), h(b"idle")], "term": rng.choice(["none", "space", "nul"])})
+            elif kd == "other":    # argv[0] something else entirely
+                st = _nstate(comm, {"form": "argv", "parts": [h(b"/bin/sh"), h(b"-c"), h(pre + nm)], "term": "nul"})
+            elif kd == "zombie":   # turned zombie: cmdline() raises ZombieProcess
+                st = _nstate(comm, None, True)
+            elif kd == "empty":    # command line became empty
+                st = _nstate(comm)
+            else:                  # comm itself changed (prctl) to something short
+                st = _nstate(b"short", {"form": "argv", "parts": [h(pre + nm)], "term": "nul"})
+            states.append(st)
+        return {"kind": "nhist", "cls": "nhist-" + "-".join(kinds[:3]) + ("-iter" if via_iter else ""), "states": states, "ops": ops,
+                "via_iter": via_iter}
+
+    if tier != "search":
+        for nm in (b"gnome-keyring-daemon", b"exactly15bytes!-and-more", "процесс-демон".encode(), b"abcdefghijklmn\xc3\xa9z"):
+            for second in ("ext2", "title", "other", "zombie", "empty", "short"):
+                for first_op in ("name", "repr", "asdict", "iter"):
+                    cases.append(_nhist(nm, ["ext", second], [first_op, "name"], first_op == "iter"))
+                cases.append(_nhist(nm, [second, "ext", second], ["name", "name", "name"], False))
+    for _ in range(n):
+        k = rng.randint(2, 5)
+        kinds = ["ext"] + [rng.choice(["ext", "ext2", "title", "other", "zombie", "empty", "short"]) for _ in range(k - 1)]
+        if rng.random() < 0.3:
+            rng.shuffle(kinds)
+        via = rng.random() < 0.4
+        ops = [rng.choice(["name", "name", "repr", "asdict", "iter"]) for _ in range(k - 1)] + ["name"]
+        cases.append(_nhist(rng.choice(NAME_POOL), kinds, ops, via))
     # histories: cmdline(); caller edits the list; cmdline(), name(), exe() -- in and out of oneshot()
     for _ in range(n):
         nm = rng.choice(NAME_POOL)
@@ -435,6 +478,7 @@ def _g_view(v):
 
 _BASE_VIEW = {"pdir": True, "comm": "78", "cmdline": ["data", ""], "environ": ["data", ""], "exe": ["ENOENT"],
               "cwd": ["ENOENT"], "paths": [], "stat": "S"}
+NOPS = {"name": "OpName", "repr": "OpRepr", "asdict": "OpAsDictName", "iter": "OpAsDictName"}
 OPS = {"name": "OpName", "exe": "OpExe", "cmdline": "OpCmdline", "environ": "OpEnviron", "cwd": "OpCwd"}
 
 
@@ -468,6 +512,10 @@ def coq_term(case):
         return "run_env_bytes %s %s" % (MODEL_CFG, G.by(unh(case["data"])))
     if k == "uenc":
         return "run_uenc %s" % G.zs(case["cps"])
+    if k == "nhist":
+        steps = ["(Build_nstate %s %s %s, %s)" % (G.by(unh(st["comm"])), _g_cmd(st["cmd"]), G.bo(st["zombie"]), NOPS[o])
+                 for st, o in zip(case["states"], case["ops"])]
+        return "run_nhist %s %s" % (MODEL_CFG, G.lst(steps))
     if k == "gone":
         return "run_gone %s %s %s" % (MODEL_CFG, G.bo(case["denied"]), G.bo(case["esrch"]))
     raise ValueError(k)
@@ -505,6 +553,8 @@ def coq_struct(case, raw):
         return {"model": raw, "spec": None}
     if k == "hist":
         return {"printed": raw[0], "model": raw[1], "spec": raw[2], "aux": [raw[3]]}
+    if k == "nhist":
+        return {"printed": raw[0], "model": raw[1], "spec": raw[2]}
     raise ValueError(k)
 
 
@@ -789,6 +839,37 @@ def _run_hist(case, coq, p, K):
     return res
 
 
+def _run_nhist(case, coq, psutil, p, K):
+    """one Process object (optionally the instance process_iter() caches and reuses); before each call the kernel state is
+    replaced (same pid, same start time): comm, cmdline, zombie or not"""
+    base = {"pdir": True, "environ": ["data", ""], "exe": ["ENOENT"], "cwd": ["ENOENT"], "paths": []}
+    res = []
+    K.install()
+    try:
+        if case["via_iter"]:
+            K.apply(dict(base, stat="S", comm=case["states"][0]["comm"], cmdline=["data", ""]), "name", None)
+            found = [q for q in psutil.process_iter() if q.pid == PID]
+            if len(found) == 1:
+                p = found[0]
+        for st, o, printed in zip(case["states"], case["ops"], coq["printed"]):
+            K.apply(dict(base, stat="Z" if st["zombie"] else "S", comm=st["comm"], cmdline=["data", printed["b"]]), "name", None)
+            if o == "name":
+                res.append(_call(p, "name"))
+            elif o == "repr":
+                (str if len(res) % 2 else repr)(p)
+                res.append({"t": "Unit", "a": []})
+            elif o == "asdict" or not case["via_iter"]:
+                res.append(outcome(lambda: p.as_dict(attrs=["name"])["name"], lambda x: None if x is None else _b(x)))
+            else:   # the instance process_iter() hands out again, with .info filled by as_dict
+                def it():
+                    found = [q for q in psutil.process_iter(["name"]) if q.pid == PID]
+                    return found[0].info["name"] if found else {"t": "NotListed", "a": []}
+                res.append(outcome(it, lambda x: None if x is None else (x if isinstance(x, dict) else _b(x))))
+    finally:
+        K.uninstall()
+    return res
+
+
 def impl_run(case, coq, env):
     import psutil
     from pv import fakeproc
@@ -807,6 +888,8 @@ def impl_run(case, coq, env):
     K = _Kernel(psutil, root, env["work"])
     if case["kind"] == "hist":
         return _run_hist(case, coq, p, K)
+    if case["kind"] == "nhist":
+        return _run_nhist(case, coq, psutil, p, K)
     steps = _steps_of(case, coq)
     res = []
     K.install()
@@ -834,7 +917,8 @@ MANIFEST = {
             "name extended from cmdline()[0] at 15 bytes, whatever bytes it contains. Total statements: for EVERY byte string cmdline() equals the documented "
             "separator rule and environ() never fails and returns the last-entry dictionary of the block read as NUL-terminated entries; "
             "one decision table for a link that is not given (live / zombie / stat absent / probe refused); zombie and caller-edited-list "
-            "histories; the fs-encoding round trip fsencode(decode(b)) = b that name() relies on. All of this is proved for the code as it is now, "
+            "histories; history independence of name() (for all histories of kernel states and calls on one object each answer depends on the "
+            "state of that moment only); the fs-encoding round trip fsencode(decode(b)) = b that name() relies on. All of this is proved for the code as it is now, "
             "without exclusions. The two statements this check first refuted (CR/CRLF translated to LF by the text-mode read of "
             "cmdline/environ; 15-byte non-ASCII names not extended; both repaired in /repo, 46827e5 and 76627f6) are kept as refuted "
             "theorems about the old configuration and their inputs are replayed from the corpus on every run. "
